@@ -105,6 +105,19 @@ def bv_const(v):
     return BV(v, (~v) & M64)
 
 
+def decode_bytes_local(s_):
+    out = bytearray()
+    i = 0
+    while i < len(s_):
+        if s_[i] == "\\" and s_[i + 1:i + 2] == "x":
+            out.append(int(s_[i + 2:i + 4], 16))
+            i += 4
+        else:
+            out.append(ord(s_[i]))
+            i += 1
+    return bytes(out)
+
+
 class Val:
     """Disjunction of BVs."""
     __slots__ = ("alts",)
@@ -199,6 +212,11 @@ class Val:
 
 TOP = Val.top()
 PARTS = 4
+FACTS = [None]      # the fact base of the run (set by the engine): lets BITS look into closures and constants
+
+
+def set_facts(f):
+    FACTS[0] = f
 
 BIT_METHODS = {
     "bitor": "or", "union": "or", "bitand": "and", "intersection": "and", "not": "not",
@@ -601,6 +619,10 @@ class Bits:
                     st[k2] = TOP
                 for k2 in [k2 for k2 in st if k2[0] in ("cond", "and", "alias") and any(k1[0] == kk[0] for k1 in st[k2][1])]:
                     del st[k2]
+            if t.callee == "std::iter::Iterator::any" and len(args) == 2 and FACTS[0] is not None:
+                af = self._any_contains(t, st)
+                if af is not None:
+                    fact = ("cond", af)
             if m == "default" and t.rty and t.rty.endswith("OpenHow") and dest is not None:
                 dk = _pk(dest)
                 self._kill(st, dk)
@@ -632,6 +654,68 @@ class Bits:
                 if fact is not None:
                     st[(fact[0], dest.local)] = fact[1]
 
+    def _any_contains(self, t, st):
+        """`CONST_FLAGS.iter().any(|&f| x.contains(f))`  ->  ("anycontains", keys of x, (f1, f2, ..), True)."""
+        from .dataflow import Tracer
+        facts = FACTS[0]
+        T = getattr(self, "_tracer", None)
+        if T is None:
+            T = self._tracer = Tracer(facts)
+        body = self.body
+        n = len(body.blocks[t.bb].stmts)
+        # the closure: one captured flag set, body = contains(captured, argument) returned as is
+        cl = None
+        cap = None
+        for o in T.origins_of_operand(body, t.bb, n, t.args[1]):
+            if o.kind == "agg" and o.detail and o.detail.startswith("closure ") and facts.has(o.detail[8:]):
+                cl = facts.body(o.detail[8:])
+                ops = [Operand(x) for x in o.stmt.rv["ops"]]
+                if len(ops) == 1:
+                    cap = (o.stmt, ops[0])
+        if cl is None or cap is None:
+            return None
+        calls = [c for c in cl.calls() if method_name(c) in ("contains",)]
+        others = [c for c in cl.calls() if c not in calls and not (c.callee or "").startswith(("std::ops::Deref", "std::clone::Clone"))]
+        if len(calls) != 1 or others:
+            return None
+        ro = T.return_origins(cl)
+        if not (ro and all(o.kind == "call" and o.term is calls[0] for o in ro)):
+            return None
+        recv = T.origins_of_arg(calls[0], 0)
+        argo = T.origins_of_arg(calls[0], 1)
+        if not (argo and all(o.kind == "param" and o.body is cl and o.detail == 2 for o in argo)):
+            return None
+        # the receiver must be the captured variable
+        if not recv or any(o.kind == "param" and o.body is cl for o in recv):
+            return None
+        # the captured operand in this body -> key
+        blk_idx = None
+        for blk in body.blocks:
+            if cap[0] in blk.stmts:
+                blk_idx = blk.idx
+        if blk_idx is None:
+            return None
+        akey = self.base_key(cap[1])
+        if akey is None:
+            return None
+        akey = self._resolve_alias(st, akey)
+        # the elements: a constant array reached through slice::iter
+        masks = None
+        for o in T.origins_of_operand(body, t.bb, n, t.args[0]):
+            if o.kind == "call" and (o.term.callee or "").endswith("::iter"):
+                for o2 in T.origins_of_arg(o.term, 0):
+                    if o2.kind == "const":
+                        raw = decode_bytes_local(o2.const_bytes() or "")
+                        ty = (o2.op.const.get("ty") or "")
+                        mm = re.search(r"; (\d+)\]", ty)
+                        if raw and mm and len(raw) % int(mm.group(1)) == 0:
+                            k = int(mm.group(1))
+                            sz = len(raw) // k
+                            masks = tuple(int.from_bytes(raw[i * sz:(i + 1) * sz], "little") for i in range(k))
+        if not masks:
+            return None
+        return ("anycontains", akey, masks, True)
+
     # ------------------------------------------------------------------ refinement
     def refine(self, bb, edge, st):
         """State along an outgoing edge of a switch; None if the edge is infeasible."""
@@ -656,6 +740,25 @@ class Bits:
         holds = (truth == pos)   # does the predicate hold on this edge?
         keys = key if (key and isinstance(key[0], tuple)) else (key,)
         st = dict(st)
+        if kind == "anycontains":
+            if holds:
+                return st
+            # none of the listed flag sets is contained
+            for mk in mask:
+                for k1 in keys:
+                    cur = st.get(k1)
+                    if cur is None:
+                        cur = self._lookup(st, k1) or TOP
+                    new = []
+                    for a in cur.alts:
+                        if (a.s & mk) == mk:
+                            continue
+                        c2 = a.c | (mk if _single_bit(mk) else 0)
+                        new.append(BV(a.s, c2, set(a.nc) | {mk}, a.keep, a.src))
+                    if not new:
+                        return None
+                    st[k1] = Val(new)
+            return st
         for k1 in keys:
             cur = st.get(k1)
             if cur is None:
